@@ -3,8 +3,13 @@ From VF.C10 Require Import Model ProofsMaps.
 From Coq Require Import Lia ZifyBool ZifyN.
 Local Open Scope N_scope.
 
+Definition nz (t : list (N * N)) : Prop := forall k v, find t k = Some v -> v <> 0.
+
 (* what the theorems assume about hashes and codecs: the codecs round-trip
-   (C14), hashing is collision free *)
+   (C14), hashing is collision free.  The trie roots are only required to be
+   injective on well-formed contents (sorted, storage without zero slots) and
+   to tell a non-empty trie from the empty one - what the Merkle-Patricia root
+   of C13 provides under an injective node hash (Instance.v). *)
 Class WorldOk (W : World) : Prop := {
   heqb_eq : forall a b : hash, heqb a b = true <-> a = b;
   rheqb_eq : forall a b : rhash, rheqb a b = true <-> a = b;
@@ -17,11 +22,10 @@ Class WorldOk (W : World) : Prop := {
   prel_rt : forall x, dec_prel (enc_prel x) = Some x;
   h_code_inj : forall a b, h_code a = h_code b -> a = b;
   h_dlgs_inj : forall a b, h_dlgs a = h_dlgs b -> a = b;
-  root_stor_inj : forall a b, root_stor a = root_stor b -> a = b;
-  root_acct_inj : forall a b, root_acct a = root_acct b -> a = b;
-  root_val_inj : forall a i s q a' i' s' q',
-      root_val a i s q = root_val a' i' s' q' -> a = a' /\ i = i' /\ s = s' /\ q = q';
-  root_stk_inj : forall a p a' p', root_stk a p = root_stk a' p' -> a = a' /\ p = p'
+  root_stor_inj : forall a b, sorted a -> nz a -> sorted b -> nz b -> root_stor a = root_stor b -> a = b;
+  root_acct_nil : forall t : list (N * account hash), sorted t -> aroot t = aroot [] -> t = [];
+  root_val_nil : forall t : vtrie, sorted (vt_info t) -> vroot t = vroot vt_empty -> vt_index t = None;
+  root_stk_nil : forall t : strie, sorted (st_recs t) -> sroot t = sroot st_empty -> t = st_empty
 }.
 
 Section Stk.
